@@ -565,6 +565,15 @@ def repeatChunkss (x : Chunks) (r axis : Nat) : Option Chunks :=
     some (mapIdxFrom (fun i c => regGrid (maxOf c) (if i = axis then c.sum * r else c.sum)) 0 x)
   else none
 
+/-- `repeat` (repaired): `axis = validate_axis(axis, x.ndim)` first (`none` = out of range); for `repeats == 0` the
+result is `empty(shape, chunks=x.chunksize)`, i.e. the same formula with a zero-length axis `(0,)`. -/
+def repeatNormAxis (x : Chunks) (axis : Int) : Option Nat :=
+  let nd : Int := x.length
+  if axis < -nd || axis ≥ nd then none else some (axis % nd).toNat
+
+def repeatDeclared (x : Chunks) (r : Nat) (axis : Int) : Option Chunks :=
+  (repeatNormAxis x axis).bind (repeatChunkss x r)
+
 /-- `_repeat`: `nxp.repeat(block, r, axis)[bi*c : (bi+1)*c]` with `bi = coords[axis] % r`, input block
 `coords[axis] // r`. -/
 def repeatAxisBlock (r : Nat) (c : List Nat) (b : Nat) : Option Nat :=
